@@ -233,6 +233,58 @@ theorem evalRulesWith_memEq (ev1 ev2 : Rule → Option (List Tuple)) : ∀ (rs :
       intro t
       simp only [mem_unionT, mem_dedupT, h1 t, h2 t]
 
+theorem evalRulesWith_none_iff (ev : Rule → Option (List Tuple)) : ∀ (rs : List Rule),
+    evalRulesWith ev rs = none ↔ ∃ r, r ∈ rs ∧ ev r = none
+  | [] => by simp [evalRulesWith]
+  | r :: rs => by
+    have ih := evalRulesWith_none_iff ev rs
+    unfold evalRulesWith
+    cases hr : ev r <;> cases hs : evalRulesWith ev rs <;> simp_all
+
+theorem evalRulesWith_some_mem (ev : Rule → Option (List Tuple)) : ∀ (rs : List Rule) (ts : List Tuple),
+    evalRulesWith ev rs = some ts → ∀ t, t ∈ ts ↔ ∃ r a, r ∈ rs ∧ ev r = some a ∧ t ∈ a
+  | [], ts, h => by simp [evalRulesWith] at h; subst h; simp
+  | r :: rs, ts, h => by
+    unfold evalRulesWith at h
+    cases hr : ev r <;> cases hs : evalRulesWith ev rs <;> simp [hr, hs] at h
+    subst h
+    have ih := evalRulesWith_some_mem ev rs _ hs
+    intro t
+    simp only [mem_unionT, mem_dedupT, ih t, List.mem_cons]
+    constructor
+    · rintro (h | ⟨r', a, hr', he, ht⟩)
+      · exact ⟨r, _, Or.inl rfl, hr, h⟩
+      · exact ⟨r', a, Or.inr hr', he, ht⟩
+    · rintro ⟨r', a, rfl | hr', he, ht⟩
+      · rw [hr] at he; cases he; exact Or.inl ht
+      · exact Or.inr ⟨r', a, hr', he, ht⟩
+
+/-- the union of rule results only depends on the *set* of rules (order and repetition are
+    irrelevant). -/
+theorem evalRulesWith_sameRules (ev : Rule → Option (List Tuple)) {rs rs' : List Rule}
+    (h : ∀ r, r ∈ rs ↔ r ∈ rs') : OptMemEq (evalRulesWith ev rs) (evalRulesWith ev rs') := by
+  cases h1 : evalRulesWith ev rs <;> cases h2 : evalRulesWith ev rs'
+  · trivial
+  · obtain ⟨r, hr, he⟩ := (evalRulesWith_none_iff ev rs).1 h1
+    have := (evalRulesWith_none_iff ev rs').2 ⟨r, (h r).1 hr, he⟩
+    rw [h2] at this; cases this
+  · obtain ⟨r, hr, he⟩ := (evalRulesWith_none_iff ev rs').1 h2
+    have := (evalRulesWith_none_iff ev rs).2 ⟨r, (h r).2 hr, he⟩
+    rw [h1] at this; cases this
+  · intro t
+    rw [evalRulesWith_some_mem ev rs _ h1 t, evalRulesWith_some_mem ev rs' _ h2 t]
+    constructor <;> rintro ⟨r, a, hr, he, ht⟩
+    · exact ⟨r, a, (h r).1 hr, he, ht⟩
+    · exact ⟨r, a, (h r).2 hr, he, ht⟩
+
+theorem OptMemEq.trans {α} {a b c : Option (List α)} (h : OptMemEq a b) (g : OptMemEq b c) : OptMemEq a c := by
+  cases a <;> cases b <;> cases c <;> simp only [OptMemEq] at h g ⊢
+  exact MemEq.trans h g
+
+theorem OptMemEq.symm {α} {a b : Option (List α)} (h : OptMemEq a b) : OptMemEq b a := by
+  cases a <;> cases b <;> simp only [OptMemEq] at h ⊢
+  exact MemEq.symm h
+
 theorem mem_scansOf {p : Program} {h : String} {r : Rule} {x : String}
     (hr : r ∈ clausesOf p h) (hx : x ∈ r.scans) : x ∈ scansOf p h := by
   unfold scansOf
